@@ -199,26 +199,27 @@ Section WmdProofs.
   Variable show_w : W -> text.
   Variable read_w : text -> option W.
 
-  (* the trusted facts about "{}".format(float) / float(token) — tested by the harness on every weight.
-     H_show_no_space excludes every whitespace character: U+0020 and all line boundaries included
-     (linebreak_is_space). *)
-  Hypothesis H_read_show : forall w, read_w (show_w w) = Some w.
-  Hypothesis H_show_nonempty : forall w, show_w w <> [].
-  Hypothesis H_show_no_comma : forall w, forallb (fun c => negb (N.eqb c 44)) (show_w w) = true.
-  Hypothesis H_show_no_space : forall w, forallb (fun c => negb (is_space c)) (show_w w) = true.
+  (* what is needed of a weight w and the codec "{}".format(float) / float(token): facts about CPython that
+     are not proved (tested by the harness on every generated weight).  The last clause excludes every
+     whitespace character: U+0020 and all line boundaries included (linebreak_is_space). *)
+  Definition good_w (w : W) : Prop :=
+    read_w (show_w w) = Some w /\ show_w w <> [] /\
+    forallb (fun c => negb (N.eqb c 44)) (show_w w) = true /\
+    forallb (fun c => negb (is_space c)) (show_w w) = true.
 
   Notation winst := (winst W).
   Notation wtab := (list ((N * N) * W)).
+  Notation good_e := (fun e : (N * N) * W => good_w (snd e)).
 
-  Lemma show_w_no_sp w : forallb (fun c => negb (N.eqb c 32)) (show_w w) = true.
+  Lemma show_w_no_sp w : good_w w -> forallb (fun c => negb (N.eqb c 32)) (show_w w) = true.
   Proof.
-    eapply forallb_impl; [|apply H_show_no_space]. intros c H. apply negb_true_iff in H.
+    intros (_ & _ & _ & Hs). eapply forallb_impl; [|apply Hs]. intros c H. apply negb_true_iff in H.
     destruct (N.eqb_spec c 32) as [->|]; [discriminate|reflexivity].
   Qed.
 
-  Lemma show_w_no_break w : no_break (show_w w) = true.
+  Lemma show_w_no_break w : good_w w -> no_break (show_w w) = true.
   Proof.
-    eapply forallb_impl; [|apply H_show_no_space]. intros c H. apply negb_true_iff in H.
+    intros (_ & _ & _ & Hs). eapply forallb_impl; [|apply Hs]. intros c H. apply negb_true_iff in H.
     destruct (is_linebreak c) eqn:E; [|reflexivity]. apply linebreak_is_space in E. congruence.
   Qed.
 
@@ -229,43 +230,46 @@ Section WmdProofs.
   Lemma edge_line_eline n m w : edge_line W show_w n m w = eline ((n, m), w) ++ nl.
   Proof. unfold edge_line, eline. simpl fst. simpl snd. now rewrite <- !app_assoc. Qed.
 
-  Lemma strip_eline e : strip (eline e) = eline e.
+  Lemma strip_eline e : good_w (snd e) -> strip (eline e) = eline e.
   Proof.
-    destruct e as [[n m] w]. unfold eline. simpl fst. simpl snd. apply strip_by_of_fix.
+    destruct e as [[n m] w]. intros (_ & Hne & _ & Hs). cbn [snd] in *. unfold eline. simpl fst. simpl snd. apply strip_by_of_fix.
     - apply lstrip_by_app_fix; [apply show_N_nonempty|].
       pose proof (strip_show_N n) as H. now apply strip_by_fix in H.
-    - rewrite !app_assoc. apply rstrip_by_app_fix; [apply H_show_nonempty|].
-      pose proof (strip_by_none is_space (show_w w) (H_show_no_space w)) as H. now apply strip_by_fix in H.
+    - rewrite !app_assoc. apply rstrip_by_app_fix; [exact Hne|].
+      pose proof (strip_by_none is_space (show_w w) Hs) as H. now apply strip_by_fix in H.
   Qed.
 
-  Lemma remove_sp_eline e :
+  Lemma remove_sp_eline e : good_w (snd e) ->
     remove_sp (eline e) = show_N (fst (fst e)) ++ 44%N :: show_N (snd (fst e)) ++ 44%N :: show_w (snd e).
   Proof.
-    unfold eline. rewrite !remove_sp_app.
+    intros Hg. unfold eline. rewrite !remove_sp_app.
     rewrite !(remove_sp_id (show_N _)) by (apply show_N_all; intros c H; apply (digit_facts c H)).
-    rewrite (remove_sp_id (show_w _)) by apply show_w_no_sp. reflexivity.
+    rewrite (remove_sp_id (show_w _)) by now apply show_w_no_sp. reflexivity.
   Qed.
 
-  Theorem parse_edge_line_eline t e : forallb is_space t = true -> parse_edge_line W read_w (eline e ++ t) = Ok e.
+  Theorem parse_edge_line_eline t e : forallb is_space t = true -> good_w (snd e) ->
+    parse_edge_line W read_w (eline e ++ t) = Ok e.
   Proof.
-    intros Ht. unfold parse_edge_line. rewrite strip_nl_r by exact Ht. rewrite strip_eline, remove_sp_eline.
+    intros Ht Hg. pose proof Hg as (Hrs & _ & Hc & _).
+    unfold parse_edge_line. rewrite strip_nl_r by exact Ht.
+    rewrite strip_eline by exact Hg. rewrite remove_sp_eline by exact Hg.
     rewrite split_on_app_sep by (apply show_N_all; intros c H; apply (digit_facts c H)).
     rewrite split_on_app_sep by (apply show_N_all; intros c H; apply (digit_facts c H)).
-    rewrite split_on_nosep by apply H_show_no_comma.
-    rewrite !py_int_show_N. simpl rbind. rewrite H_read_show. now destruct e as [[n m] w].
+    rewrite split_on_nosep by exact Hc.
+    rewrite !py_int_show_N. simpl rbind. rewrite Hrs. now destruct e as [[n m] w].
   Qed.
 
-  Lemma eline_no_break e : no_break (eline e) = true.
+  Lemma eline_no_break e : good_w (snd e) -> no_break (eline e) = true.
   Proof.
-    unfold eline, no_break. rewrite !forallb_app. fold (no_break (show_N (fst (fst e)))).
+    intros Hg. unfold eline, no_break. rewrite !forallb_app. fold (no_break (show_N (fst (fst e)))).
     fold (no_break (show_N (snd (fst e)))). fold (no_break (show_w (snd e))).
-    rewrite !show_N_no_break, show_w_no_break. reflexivity.
+    rewrite !show_N_no_break, show_w_no_break by exact Hg. reflexivity.
   Qed.
 
   (* an edge line is not a header line *)
-  Lemma eline_not_hash e : is_hash_line (strip (eline e ++ nl)) = false.
+  Lemma eline_not_hash e : good_w (snd e) -> is_hash_line (strip (eline e ++ nl)) = false.
   Proof.
-    rewrite strip_nl_r by reflexivity. rewrite strip_eline. unfold eline.
+    intros Hg. rewrite strip_nl_r by reflexivity. rewrite strip_eline by exact Hg. unfold eline.
     pose proof (show_N_nonempty (fst (fst e))) as Hne. pose proof (show_N_digits (fst (fst e))) as Hd.
     destruct (show_N (fst (fst e))) as [|c r]; [contradiction|]. simpl in Hd.
     apply andb_true_iff in Hd as [Hc _]. destruct (digit_facts c Hc) as (_ & _ & _ & _ & H35).
@@ -274,12 +278,19 @@ Section WmdProofs.
 
   Definition elines (es : wtab) : list text := map eline es.
 
-  Lemma parse_edges_elines_t t (Ht : forallb is_space t = true) es : forall g,
+  Lemma parse_edges_elines_t t (Ht : forallb is_space t = true) es : Forall good_e es -> forall g,
     parse_edges W read_w (map (fun l => l ++ t) (elines es)) g =
     Ok (fold_left (fun g e => add_edge (fst (fst e)) (snd (fst e)) (snd e) g) es g).
   Proof.
-    induction es as [|e r IH]; intros g; [reflexivity|].
-    simpl. rewrite parse_edge_line_eline by exact Ht. simpl. apply IH.
+    induction 1 as [|e r He Hr IH]; intros g; [reflexivity|].
+    simpl. rewrite parse_edge_line_eline by assumption. simpl. apply IH.
+  Qed.
+
+  Lemma wlist_In (wt : wtab) ks e : In e (wlist wt ks) -> In e wt.
+  Proof.
+    unfold wlist. rewrite in_flat_map. intros [k [_ H]].
+    destruct (assoc_get peqb k wt) as [w|] eqn:G; [|contradiction]. destruct H as [<-|[]].
+    now apply (assoc_get_Some_In _ _ peqb peqb_spec).
   Qed.
 
   Lemma edges_text_lines wt ks :
@@ -324,12 +335,20 @@ Section WmdProofs.
     NoDup (keys (w_weights i)) /\
     (forall n m, In (n, m) (keys (w_weights i)) <-> In m (nbrs (w_nodes i) n)).
 
-  Definition wf_wmd (i : winst) : Prop :=
+  Definition wf_core (i : winst) : Prop :=
     data_type (w_meta i) = lit "wmd" /\
     wf_fields (w_meta i) /\ wf_names (alt_names (w_meta i)) /\
     wf_nmap (w_nodes i) /\ wf_weights i /\
     w_num_edges i = N.of_nat (List.length (all_edges (w_nodes i))) /\
     all_edges (w_nodes i) <> [].
+
+  (* ... whose weights are all printed and read back faithfully *)
+  Definition wf_wmd (i : winst) : Prop := wf_core i /\ Forall good_e (w_weights i).
+
+  Lemma sorted_weights_good i : Forall good_e (w_weights i) -> Forall good_e (wlist (w_weights i) (edge_keys (w_nodes i))).
+  Proof.
+    intros H. rewrite Forall_forall in *. intros e He. apply H. now apply wlist_In in He.
+  Qed.
 
   Definition reparsed_meta (m : meta) : meta := set_reserved (set_num_voters m (num_alternatives m)) [].
 
@@ -347,12 +366,12 @@ Section WmdProofs.
 
   Lemma file_lines_no_break i : wf_wmd i -> forallb no_break (file_lines i) = true.
   Proof.
-    intros (_ & Hf & [Hn _] & _). unfold file_lines, header_lines. rewrite !forallb_app.
+    intros [(_ & Hf & [Hn _] & _) Hgood]. unfold file_lines, header_lines. rewrite !forallb_app.
     rewrite meta_lines_no_break by exact Hf. rewrite alt_name_lines_no_break by exact Hn.
     destruct (count_lines_no_break (num_alternatives (w_meta i)) (w_num_edges i)) as [A B].
     cbn [forallb]. rewrite A, B. cbn [andb].
-    unfold elines. rewrite forallb_forall. intros l Hl. apply in_map_iff in Hl as [e [<- _]].
-    apply eline_no_break.
+    unfold elines. rewrite forallb_forall. intros l Hl. apply in_map_iff in Hl as [e [<- He]].
+    apply eline_no_break. apply sorted_weights_good in Hgood. rewrite Forall_forall in Hgood. now apply Hgood.
   Qed.
 
   (* ============================================================================================== *)
@@ -371,7 +390,7 @@ Section WmdProofs.
                       (alt_names (w_meta i)),
         w_num_edges i, map (fun l => l ++ t) (elines (sorted_weights i))).
   Proof.
-    intros Ht (Hdt & Hf & Hn & Hg & Hw & Hne & Hnz).
+    intros Ht [(Hdt & Hf & Hn & Hg & Hw & Hne & Hnz) Hgood].
     assert (Hk : keys (sorted_weights i) = edge_keys (w_nodes i)) by now apply sorted_weights_keys.
     assert (Hes : sorted_weights i <> []).
     { intros C. rewrite C in Hk. cbn in Hk. apply Hnz. apply length_zero_iff_nil.
@@ -403,17 +422,19 @@ Section WmdProofs.
     destruct es as [|e r] eqn:Ees; [contradiction|]. cbn [elines map].
     rewrite wmd_header_stop; [reflexivity|].
     rewrite strip_nl_r by exact Ht. rewrite <- (strip_nl_r _ nl) by reflexivity. apply eline_not_hash.
+    apply sorted_weights_good in Hgood. fold (sorted_weights i) in Hgood. fold es in Hgood. rewrite Ees in Hgood.
+    now inversion Hgood.
   Qed.
 
   Theorem parse_file_lines t i : forallb is_space t = true -> wf_wmd i ->
     wmd_parse W read_w false false (meta0 (lit "wmd")) (map (fun l => l ++ t) (file_lines i)) = Ok (reparsed i).
   Proof.
-    intros Ht H. pose proof H as (Hdt & Hf & Hn & Hg & Hw & Hne & Hnz).
+    intros Ht H. pose proof H as [(Hdt & Hf & Hn & Hg & Hw & Hne & Hnz) Hgood].
     assert (Hk : keys (sorted_weights i) = edge_keys (w_nodes i)) by now apply sorted_weights_keys.
     unfold wmd_parse. cbn [data_type meta0]. rewrite teqb_refl.
     rewrite (header_file_lines t i Ht H). cbn [rbind fst snd].
     rewrite (reparsed_meta_eq (w_meta i) (alt_names (w_meta i)) (num_alternatives (w_meta i)) Hn eq_refl eq_refl).
-    rewrite (parse_edges_elines_t t Ht). rewrite fold_add_edge_split. cbn [rbind fst snd].
+    rewrite (parse_edges_elines_t t Ht) by now apply sorted_weights_good. rewrite fold_add_edge_split. cbn [rbind fst snd].
     rewrite Hk. fold (rebuilt (w_nodes i)).
     rewrite fold_assoc_set_fresh.
     2:{ cbn [keys map app]. fold (keys (sorted_weights i)). rewrite Hk. destruct Hg as [D [Dn _]]. now apply edge_keys_NoDup. }
@@ -425,7 +446,7 @@ Section WmdProofs.
     wmd_parse W read_w false true (meta0 (lit "wmd")) (map (fun l => l ++ t) (file_lines i)) =
     Ok (mkW (reparsed_meta (w_meta i)) (w_num_edges i) [] []).
   Proof.
-    intros Ht H. pose proof H as (Hdt & Hf & Hn & Hg & Hw & Hne & Hnz).
+    intros Ht H. pose proof H as [(Hdt & Hf & Hn & Hg & Hw & Hne & Hnz) Hgood].
     unfold wmd_parse. cbn [data_type meta0]. rewrite teqb_refl.
     rewrite (header_file_lines t i Ht H). cbn [rbind fst snd].
     now rewrite (reparsed_meta_eq (w_meta i) (alt_names (w_meta i)) (num_alternatives (w_meta i)) Hn eq_refl eq_refl).
@@ -437,7 +458,7 @@ Section WmdProofs.
   Lemma reparsed_weights_get i k : wf_wmd i ->
     assoc_get peqb k (w_weights (reparsed i)) = assoc_get peqb k (w_weights i).
   Proof.
-    intros (_ & _ & _ & Hg & [D E] & _). cbn [reparsed w_weights]. unfold sorted_weights.
+    intros [(_ & _ & _ & Hg & [D E] & _) _]. cbn [reparsed w_weights]. unfold sorted_weights.
     destruct (in_dec pair_eq_dec k (edge_keys (w_nodes i))) as [I|I].
     - now apply wlist_get_in.
     - rewrite wlist_get_notin by exact I. symmetry. apply (assoc_get_None _ _ peqb peqb_spec).
@@ -479,9 +500,10 @@ Section WmdProofs.
 
   Lemma reparsed_wf i : wf_wmd i -> wf_wmd (reparsed i).
   Proof.
-    intros (Hdt & Hf & Hn & Hg & Hw & Hne & Hnz).
+    intros [(Hdt & Hf & Hn & Hg & Hw & Hne & Hnz) Hgood].
     assert (Hk : keys (sorted_weights i) = edge_keys (w_nodes i)) by now apply sorted_weights_keys.
-    unfold wf_wmd. cbn [reparsed w_meta w_nodes w_weights w_num_edges].
+    split; [|now apply sorted_weights_good].
+    unfold wf_core. cbn [reparsed w_meta w_nodes w_weights w_num_edges].
     split; [|split; [|split; [|split; [|split; [|split]]]]].
     - destruct (w_meta i). exact Hdt.
     - now apply reparsed_meta_fields.
@@ -500,7 +522,7 @@ Section WmdProofs.
 
   Theorem reparsed_same_content i : wf_wmd i -> same_content i (reparsed i).
   Proof.
-    intros H. pose proof H as (Hdt & Hf & Hn & Hg & Hw & Hne & Hnz).
+    intros H. pose proof H as [(Hdt & Hf & Hn & Hg & Hw & Hne & Hnz) Hgood].
     assert (Hg' : wf_nmap (rebuilt (w_nodes i))) by apply rebuilt_wf.
     unfold same_content. split; [|split; [|split; [|split; [|split; [|split; [|split]]]]]].
     - reflexivity.
@@ -519,7 +541,7 @@ Section WmdProofs.
   (* ============================================================================================== *)
   Theorem write_reparsed i : wf_wmd i -> wmd_write W show_w (reparsed i) = wmd_write W show_w i.
   Proof.
-    intros H. pose proof H as (Hdt & Hf & Hn & Hg & Hw & Hne & Hnz).
+    intros H. pose proof H as [(Hdt & Hf & Hn & Hg & Hw & Hne & Hnz) Hgood].
     unfold wmd_write. cbn [reparsed w_meta w_nodes w_weights].
     assert (E1 : write_metadata (reparsed_meta (w_meta i)) = write_metadata (w_meta i))
       by (destruct (w_meta i); reflexivity).
@@ -576,3 +598,81 @@ Section WmdProofs.
   Qed.
 
 End WmdProofs.
+
+(* ================================================================================================ *)
+(* 9. the same theorems under hypotheses on the whole codec (the form used in Properties/C09.v)      *)
+(* ================================================================================================ *)
+Section WmdCodec.
+  Variable W : Type.
+  Variable show_w : W -> text.
+  Variable read_w : text -> option W.
+  Hypothesis H_read_show : forall w, read_w (show_w w) = Some w.
+  Hypothesis H_show_nonempty : forall w, show_w w <> [].
+  Hypothesis H_show_no_comma : forall w, forallb (fun c => negb (N.eqb c 44)) (show_w w) = true.
+  Hypothesis H_show_no_space : forall w, forallb (fun c => negb (is_space c)) (show_w w) = true.
+
+  Lemma codec_good w : good_w W show_w read_w w.
+  Proof. repeat split; auto. Qed.
+
+  Lemma wf_core_wf (i : winst W) : wf_core W i -> wf_wmd W show_w read_w i.
+  Proof. intros H. split; [exact H|]. apply Forall_forall. intros e _. apply codec_good. Qed.
+
+  Theorem codec_roundtrip i : wf_core W i ->
+    exists i', wmd_parse W read_w false false (meta0 (lit "wmd")) (readlines (wmd_write W show_w i)) = Ok i'
+               /\ same_content W show_w read_w i i'.
+  Proof. intros H. now apply roundtrip, wf_core_wf. Qed.
+
+  Theorem codec_idempotent i i' : wf_core W i ->
+    wmd_parse W read_w false false (meta0 (lit "wmd")) (readlines (wmd_write W show_w i)) = Ok i' ->
+    wmd_write W show_w i' = wmd_write W show_w i.
+  Proof. intros H. now apply idempotent, wf_core_wf. Qed.
+
+  Theorem codec_roundtrip_readlines i : wf_core W i ->
+    wmd_parse W read_w false false (meta0 (lit "wmd")) (readlines (wmd_write W show_w i)) = Ok (reparsed W i).
+  Proof. intros H. now apply roundtrip_readlines, wf_core_wf. Qed.
+
+  Theorem codec_roundtrip_splitlines i : wf_core W i ->
+    wmd_parse W read_w false false (meta0 (lit "wmd")) (splitlines (wmd_write W show_w i)) = Ok (reparsed W i).
+  Proof. intros H. now apply roundtrip_splitlines, wf_core_wf. Qed.
+
+  Theorem codec_header_only i : wf_core W i ->
+    wmd_parse W read_w false true (meta0 (lit "wmd")) (readlines (wmd_write W show_w i)) =
+    Ok (mkW (reparsed_meta (w_meta i)) (w_num_edges i) [] []).
+  Proof. intros H. now apply header_only_readlines, wf_core_wf. Qed.
+End WmdCodec.
+
+(* ================================================================================================ *)
+(* 10. the instantiation that is extracted (Ops/C09.v): a weight is its raw token                    *)
+(* ================================================================================================ *)
+Definition tok_ok (t : text) : bool :=
+  negb (match t with [] => true | _ => false end) &&
+  forallb (fun c => negb (N.eqb c 44)) t && forallb (fun c => negb (is_space c)) t.
+
+Lemma tok_ok_good t : tok_ok t = true -> good_w text tok_show tok_read t.
+Proof.
+  unfold tok_ok. intros H. apply andb_true_iff in H as [H Hs]. apply andb_true_iff in H as [Hn Hc].
+  unfold good_w, tok_show, tok_read. fold (strip_by is_space t). fold (strip t).
+  assert (E : strip t = t) by now apply strip_by_none.
+  rewrite E. destruct t as [|c r]; [discriminate|]. repeat split; try assumption; try discriminate.
+  assert (X : existsb (N.eqb 44) (c :: r) = false); [|now rewrite X].
+  apply not_true_is_false. intros C. apply existsb_exists in C as [x [Hx Ex]]. apply N.eqb_eq in Ex. subst x.
+  rewrite forallb_forall in Hc. specialize (Hc _ Hx). discriminate.
+Qed.
+
+Definition wf_tok (i : twinst) : Prop :=
+  wf_core text i /\ Forall (fun e => tok_ok (snd e) = true) (w_weights i).
+
+Lemma wf_tok_wf i : wf_tok i -> wf_wmd text tok_show tok_read i.
+Proof.
+  intros [H F]. split; [exact H|]. rewrite Forall_forall in *. intros e He. apply tok_ok_good. now apply F.
+Qed.
+
+Theorem tok_roundtrip i : wf_tok i ->
+  exists i', wmd_parse_tok false false (meta0 (lit "wmd")) (readlines (wmd_write_tok i)) = Ok i'
+             /\ same_content text tok_show tok_read i i'.
+Proof. intros H. apply roundtrip. now apply wf_tok_wf. Qed.
+
+Theorem tok_idempotent i i' : wf_tok i ->
+  wmd_parse_tok false false (meta0 (lit "wmd")) (readlines (wmd_write_tok i)) = Ok i' ->
+  wmd_write_tok i' = wmd_write_tok i.
+Proof. intros H. apply idempotent. now apply wf_tok_wf. Qed.
